@@ -47,6 +47,16 @@ def gen_cases(ck):
                       "nx": int(ck.rng.integers(3, 7)), "ny": int(ck.rng.integers(3, 6)), "subset": float(ck.rng.uniform(0.45, 0.85)),
                       "kmin": 0, "kmax": [0, 0, 1][i % 3], "angle": [0.0, float(ck.rng.uniform(0, 6.28))][i % 2], "scale": [1.0, 0.25][i % 2],
                       "shift": [0.0, 0.0], "fit": ["dlite", "taubinSVD"][i % 2], "ignore_four": [None, False, True][i % 3]})
+    for i in range(6 if ck.tier == "quick" else 30):
+        # a cell with exactly two neighbours: two interfaces between the same pair of junctions
+        ku = int(ck.rng.integers(1, 7))
+        kl = [0, 0, int(ck.rng.integers(1, 7))][i % 3]
+        if kl == ku:
+            kl += 1
+        cases.append({"type": "lens", "seed": int(ck.rng.integers(1 << 30)), "k_upper": ku, "k_lower": kl, "h_upper": float(ck.rng.uniform(0.6, 1.9)),
+                      "h_lower": float(ck.rng.uniform(0.4, 1.5)), "angle": float(ck.rng.uniform(0, 6.28)), "scale": float(10.0 ** ck.rng.uniform(-1, 1)),
+                      "shift": [float(ck.rng.normal()), float(ck.rng.normal())], "shuffle_cells": bool(i % 2), "p_rev": [0.0, 0.5][i % 2], "shifts": True,
+                      "fit": ["dlite", "taubinSVD"][i % 2], "ignore_four": None})
     shapes = {"notch": [(0, 2), (3, 2)] + [(i, 1) for i in range(4)] + [(i, 0) for i in range(4)],
               "cross_with_notch": [(0, 2), (3, 2), (0, 1), (1, 1), (2, 1), (3, 1), (1, 0), (2, 0)],
               "staircase": [(i, j) for i in range(4) for j in range(3) if j <= i],
@@ -130,7 +140,10 @@ def axis_chord(case):
 def run_case(ck, case, reqs, pending):
     if case.get("near_axis"):
         case = adjust_near_axis(case)
-    sc = axis_chord(case) if case.get("axis_chord") else statics.build_static(case)
+    if case["type"] == "lens":
+        sc = statics.build_lens(case)
+    else:
+        sc = axis_chord(case) if case.get("axis_chord") else statics.build_static(case)
     if sc is None:
         ck.count("rejected_tissue")
         return
